@@ -140,8 +140,10 @@ PROPS = {
     "C14": {
         "mc": L0_QUICK,
         "drivers": [drv("failures", "debug"), drv("failures", "release")]
-                   + [drv(d, "release", shards={"quick": 2, "thorough": 6}, env={"HARNESS_SAMPLE": "8"}) for d in
-                      ("addsub", "mul", "div", "bits", "text", "conv", "roots", "pow", "gcd", "forms", "bytes", "sign")]
+                   + [drv(d, "release", shards={"quick": 2, "thorough": 6}, env={"HARNESS_SAMPLE": n}) for d, n in
+                      # (the sample is denser for the small drivers; VERIF_SEED moves it)
+                      (("addsub", "6"), ("mul", "4"), ("div", "6"), ("bits", "8"), ("text", "4"), ("conv", "4"), ("roots", "2"), ("pow", "2"), ("gcd", "3"),
+                       ("forms", "8"), ("bytes", "3"), ("sign", "1"))]
                    + [drv("modpow", "release", shards={"quick": 6, "thorough": 14}, env={"HARNESS_SAMPLE": "2"}),
                       drv("history", "release", shards={"quick": 6, "thorough": 14}, env={"HARNESS_SAMPLE": "2"})]
                    + [drv(d, "debug", tiers=T, shards={"thorough": 6}, env={"HARNESS_SAMPLE": "3"}) for d in
